@@ -54,6 +54,14 @@ def parseLine (s : String) : Option Line :=
   | "O" => some .pragmaOnce
   | "W" => some .pragmaWarning
   | "T" => (parseToks rest).map (fun t => .text (located t))
+  -- a directive line that is rejected: `X P` = `#pragma foo`, `X P0` = `#pragma`, `X C` = `#foo`, `X I0` = `#include`,
+  -- `X I1` = `#include foo`, `X I2` = `#include "f1" x`
+  | "X" =>
+    match rest.trimAscii.toString with
+    | "P" | "P0" => some (.rejected .unknownPragma)
+    | "C" => some (.rejected .unknownCommand)
+    | "I0" | "I1" | "I2" => some (.rejected .invalidInclude)
+    | _ => none
   | _ => none
 
 /-- a file entry `name|lines` or `name>real|lines`: (include name, (real name the handler reports, lines)) -/
@@ -126,6 +134,9 @@ def showErr : Err → String
   | .concatMissingRightToken => "err ConcatMissingRightToken"
   | .concatFailed => "err ConcatFailed"
   | .failedToFindFile n => "err FailedToFindFile(" ++ n ++ ")"
+  | .unknownPragma => "err UnknownPragma"
+  | .unknownCommand => "err UnknownCommand"
+  | .invalidInclude => "err InvalidInclude"
   | .panic site => "panic " ++ site
   | .hang => "model-hang"
   | .guard w => "model-guard " ++ w
@@ -211,6 +222,10 @@ def tstepLine (inc : String → TState → Except Err TState) (cur : String) :
       match inc name ts with
       | .error e => .error e
       | .ok ts => .ok (ts, [])
+  | (ts, active), .rejected e =>
+    match tflush ts active with
+    | .error e' => .error e'
+    | .ok _ => .error e
 
 def tfoldLines (inc : String → TState → Except Err TState) (cur : String) :
     TState × List PTok → List Line → Except Err (TState × List PTok)
